@@ -287,6 +287,8 @@ Qed.
 (* ------------------------------------------------------------------------- *)
 (* chunk_events_by_key *)
 
+Local Opaque zset.
+
 Section Chunk.
   Variables (sub_key key pulse : Z) (h0 : heap) (ks : list loc).
   Hypothesis Hks : closed h0 -> forall e, In e ks -> e < length h0.
